@@ -972,3 +972,70 @@ pub async fn verif_process_update(
     p.process_update(std::time::Instant::now(), bgp_msg, provenance)
         .await
 }
+
+//------------ verif-hooks ---------------------------------------------------
+
+/// Verification hook (property C04), add-only: hands one UPDATE to
+/// `Processor::process_update`, the function every UPDATE of an established
+/// BGP session goes through, and returns the payloads of the `Update::Bulk`
+/// it produces (route + status of its context).
+#[cfg(feature = "verif-hooks")]
+pub mod verif_update {
+    use super::*;
+    use rotonda_store::prelude::multi::RouteStatus as Status;
+
+    pub fn process_update(
+        bgp_msg: UpdateMessage<bytes::Bytes>,
+    ) -> Result<Vec<(RotondaRoute, Status)>, String> {
+        let (gate, _gate_agent) = Gate::new(0);
+        let (cmds_tx, _cmds_rx) = mpsc::channel(16);
+        let (pdu_out_tx, _pdu_out_rx) = mpsc::channel(16);
+        let mut processor = Processor::new(
+            None,
+            gate,
+            BgpTcpIn {
+                listen: "verif".to_string(),
+                my_asn: Asn::from_u32(12345),
+                my_bgp_id: Default::default(),
+                peer_configs: Default::default(),
+                filter_name: Default::default(),
+            },
+            cmds_tx,
+            pdu_out_tx,
+            Default::default(),
+            Arc::new(ingress::Register::default()),
+            0,
+        );
+        let provenance = Provenance::for_bgp(
+            1,
+            "10.0.0.1".parse().unwrap(),
+            Asn::from_u32(65000),
+        );
+        let res = futures::executor::block_on(processor.process_update(
+            std::time::Instant::now(),
+            bgp_msg,
+            provenance,
+        ));
+        match res {
+            Ok(Update::Bulk(payloads)) => Ok(payloads
+                .into_iter()
+                .map(|p| {
+                    let status = match &p.context {
+                        crate::roto_runtime::types::RouteContext::Fresh(
+                            ctx,
+                        ) => ctx.status,
+                        crate::roto_runtime::types::RouteContext::Mrt(
+                            ctx,
+                        ) => ctx.status,
+                        crate::roto_runtime::types::RouteContext::Reprocess => {
+                            Status::InActive
+                        }
+                    };
+                    (p.rx_value, status)
+                })
+                .collect()),
+            Ok(_) => Err("not an Update::Bulk".into()),
+            Err(e) => Err(e.to_string()),
+        }
+    }
+}
